@@ -1,10 +1,10 @@
 (* Properties_C02.v -- the AMG cycle is a fixed linear, symmetric operator.
    Statements only; proofs in AmgProofs2.v (lock-step lemma), AmgProofs3.v (A1), AmgProofs4.v /
-   AmgProofs5.v (A2), AmgProofs6.v (A3).  Model: Amg.v cycle/apply (amgcl/amg.hpp:289-297, 515-553),
+   AmgProofs5.v (A2), AmgProofs6.v / AmgProofs7.v (A3).  Model: Amg.v cycle/apply (amgcl/amg.hpp:289-297, 515-553),
    smoothers Relax.v, exact coarse solve DenseSolve.v. *)
 From Coq Require Import QArith Qcanon.
 From Amgcl Require Import Scalar QcInst Vec Crs Kernels KernelsProofs MatOps Relax DenseSolve Amg AmgExec
-  AmgProofs AmgProofs2 AmgProofs3 AmgProofs4 AmgProofs5 AmgProofs6 AmgExamples.
+  AmgProofs AmgProofs2 AmgProofs3 AmgProofs4 AmgProofs5 AmgProofs6 AmgProofs7 AmgProofs8 AmgExamples.
 Local Close Scope Qc_scope.
 Local Close Scope Q_scope.
 Local Open Scope S_scope.
@@ -174,6 +174,7 @@ Print Assumptions C02_apply_symmetric.
 (* damped Jacobi and SPAI-0 are consistent and self-adjoint *)
 Theorem C02_jacobi_spai0_symmetric_smoothers {S : Scalar} (Srt : Sring S) (Seqb : seqb_spec S)
   (k : @relax_kind S) : sym_kind k -> forall A : crs S, wf A = true ->
+  sweep_cons (nrows A) A (fst (mk_relax_std k A)) /\
   sweep_cons (nrows A) A (snd (mk_relax_std k A)) /\
   sweep_adj (nrows A) (fst (mk_relax_std k A)) (snd (mk_relax_std k A)).
 Proof. exact (mk_relax_std_sym Srt Seqb k). Qed.
@@ -211,16 +212,75 @@ Theorem C02_apply_symmetric_built_smoother_coarse {S : Scalar} (Srt : Sring S) (
 Proof. exact (built_apply_sym_smoother_coarse Srt Seqb Hadj k ce ml sc ts M). Qed.
 Print Assumptions C02_apply_symmetric_built_smoother_coarse.
 
-(* FULL STATEMENT (unproved), A3 in full:
-   (a) the same for npre = npost = k >= 1 and ncycle = 2 (W-cycle):
-       hier_sym lvls -> dot (fst (apply k k ncycle pc lvls scr1 f x1)) g
-                        = dot f (fst (apply k k ncycle pc lvls scr2 g x2))
-       (for pc = 2 the operator is 2B - BAB, symmetric when B is);
-   (b) forward / backward Gauss-Seidel as (pre, post):  for A symmetric with invertible
-       diagonal (field), sweep_cons n A (backward sweep) and
-       sweep_adj n (forward sweep) (backward sweep);
-   (c) solve_sym (nrows A) (mk_solve_exact A) for symmetric non-singular A (needs the
-       correctness of the Gauss-Jordan solve, A (solve f) = f).
+(* A3 in full: npre = npost = k (any k), any ncycle (V- and W-cycles), any pre_cycles >= 1
+   (pre_cycles = pc + 1; for pc > 0 the hierarchy must not be a single level handled by the
+   direct solver: nosolve_top).  hier_symk: the pre-smoothers are consistent as well. *)
+Theorem C02_apply_symmetric_full {S : Scalar} (Srt : Sring S) (Seqb : seqb_spec S)
+  (Hadj : forall a : S, sadj a = a) k nc pc (lvls : list (@level S)) :
+  hier_sym lvls -> hier_symk lvls -> lvls <> [] -> (pc = 0 \/ nosolve_top lvls) ->
+  forall scr1 scr2 f g x1 x2,
+  scratch_wf lvls scr1 -> scratch_wf lvls scr2 ->
+  length f = top_n lvls -> length g = top_n lvls ->
+  length x1 = top_n lvls -> length x2 = top_n lvls ->
+  dot (fst (apply k k nc (Datatypes.S pc) lvls scr1 f x1)) g =
+  dot f (fst (apply k k nc (Datatypes.S pc) lvls scr2 g x2)).
+Proof. exact (apply_sym_full Srt Seqb Hadj k nc pc lvls). Qed.
+Print Assumptions C02_apply_symmetric_full.
+
+Theorem C02_apply_symmetric_full_built {S : Scalar} (Srt : Sring S) (Seqb : seqb_spec S)
+  (Hadj : forall a : S, sadj a = a) kd ce dc ml sc ts (M : crs S) k nc pc :
+  sym_kind kd -> wf M = true -> sym_mat (nrows M) M -> ts_sym (nrows M) ts ->
+  (forall A, In (LSolve A) (amg_init ce dc ml (coarse_op_of sc) ts M) ->
+             solve_sym (nrows A) (mk_solve_exact A)) ->
+  let lvls := std_levels kd (amg_init ce dc ml (coarse_op_of sc) ts M) in
+  (pc = 0 \/ nosolve_top lvls) ->
+  forall scr1 scr2 f g x1 x2,
+  scratch_wf lvls scr1 -> scratch_wf lvls scr2 ->
+  length f = nrows M -> length g = nrows M -> length x1 = nrows M -> length x2 = nrows M ->
+  dot (fst (apply k k nc (Datatypes.S pc) lvls scr1 f x1)) g =
+  dot f (fst (apply k k nc (Datatypes.S pc) lvls scr2 g x2)).
+Proof. exact (built_apply_sym_full Srt Seqb Hadj kd ce dc ml sc ts M k nc pc). Qed.
+Print Assumptions C02_apply_symmetric_full_built.
+
+(* Gauss-Seidel (field): for a symmetric matrix whose rows carry one invertible diagonal entry
+   (gs_diag_ok: the last stored diagonal entry is non-zero and equals the dense diagonal) the
+   forward and the backward sweep are consistent and adjoint to each other: forward as pre-,
+   backward as post-smoother gives a symmetric preconditioner. *)
+Theorem C02_gs_symmetric_smoothers {S : Scalar} (Sft : Sfield S) (A : crs S) :
+  wf A = true -> sym_mat (nrows A) A -> gs_diag_ok A ->
+  sweep_cons (nrows A) A (fst (mk_relax_std RGS A)) /\
+  sweep_cons (nrows A) A (snd (mk_relax_std RGS A)) /\
+  sweep_adj (nrows A) (fst (mk_relax_std RGS A)) (snd (mk_relax_std RGS A)).
+Proof. exact (gs_sym_ok Sft A). Qed.
+Print Assumptions C02_gs_symmetric_smoothers.
+
+Theorem C02_gs_diag_ok_nodup {S : Scalar} (Sft : Sfield S) (A : crs S) :
+  Forall (fun r => NoDup (map fst r)) (rows A) ->
+  (forall i, i < nrows A -> In i (map fst (nth i (rows A) [])) /\ mget A i i <> s0) ->
+  gs_diag_ok A.
+Proof. exact (gs_diag_ok_nodup Sft A). Qed.
+Print Assumptions C02_gs_diag_ok_nodup.
+
+Theorem C02_apply_symmetric_full_built_gs {S : Scalar} (Sft : Sfield S) (Seqb : seqb_spec S)
+  (Hadj : forall a : S, sadj a = a) ce dc ml sc ts (M : crs S) k nc pc :
+  wf M = true -> sym_mat (nrows M) M -> ts_sym (nrows M) ts ->
+  (forall A, In (LSolve A) (amg_init ce dc ml (coarse_op_of sc) ts M) ->
+             solve_sym (nrows A) (mk_solve_exact A)) ->
+  (forall l, In l (amg_init ce dc ml (coarse_op_of sc) ts M) -> gs_diag_ok (ld_A l)) ->
+  let lvls := std_levels RGS (amg_init ce dc ml (coarse_op_of sc) ts M) in
+  (pc = 0 \/ nosolve_top lvls) ->
+  forall scr1 scr2 f g x1 x2,
+  scratch_wf lvls scr1 -> scratch_wf lvls scr2 ->
+  length f = nrows M -> length g = nrows M -> length x1 = nrows M -> length x2 = nrows M ->
+  dot (fst (apply k k nc (Datatypes.S pc) lvls scr1 f x1)) g =
+  dot f (fst (apply k k nc (Datatypes.S pc) lvls scr2 g x2)).
+Proof. exact (built_apply_sym_full_gs Sft Seqb Hadj ce dc ml sc ts M k nc pc). Qed.
+Print Assumptions C02_apply_symmetric_full_built_gs.
+
+(* FULL STATEMENT (unproved), remaining part of A3:
+   solve_sym (nrows A) (mk_solve_exact A) for symmetric non-singular A (needs the correctness
+   of the Gauss-Jordan solve, A (solve f) = f); it is a hypothesis of the *_built theorems and
+   is void for direct_coarse = false.
    The non-symmetry for npre <> npost is exhibited on the concrete hierarchy below
    (C02_example_asymmetric_when_npre_ne_npost).
 
@@ -271,6 +331,23 @@ Theorem C02_apply_symmetric_Qc k ce ml sc ts (M : crs QcS) :
 Proof. exact (built_apply_sym_smoother_coarse QcS_ring QcS_eqb (fun a => eq_refl) k ce ml sc ts M). Qed.
 Print Assumptions C02_apply_symmetric_Qc.
 
+Theorem C02_apply_symmetric_gs_Qc ce ml sc ts (M : crs QcS) k nc pc :
+  wf M = true -> sym_mat (nrows M) M -> ts_sym (nrows M) ts ->
+  (forall l, In l (amg_init ce false ml (coarse_op_of sc) ts M) -> gs_diag_ok (ld_A l)) ->
+  let lvls := std_levels RGS (amg_init ce false ml (coarse_op_of sc) ts M) in
+  forall scr1 scr2 f g x1 x2,
+  scratch_wf lvls scr1 -> scratch_wf lvls scr2 ->
+  length f = nrows M -> length g = nrows M -> length x1 = nrows M -> length x2 = nrows M ->
+  dot (fst (apply k k nc (Datatypes.S pc) lvls scr1 f x1)) g =
+  dot f (fst (apply k k nc (Datatypes.S pc) lvls scr2 g x2)).
+Proof.
+  exact (fun WM SM Hts Hg =>
+    built_apply_sym_full_gs QcS_field QcS_eqb (fun a => eq_refl) ce false ml sc ts M k nc pc WM SM Hts
+      (fun A HA => False_ind _ (build_no_solve _ _ _ _ _ _ _ HA)) Hg
+      (or_intror (nosolve_top_nosolve ce ml (coarse_op_of sc) ts M RGS))).
+Qed.
+Print Assumptions C02_apply_symmetric_gs_Qc.
+
 (* ================================================================== *)
 (* non-vacuity: the hypothesis sets hold on a concrete 3-level hierarchy over Qc
    (AmgExampleData.v: 1D Laplacian n = 4, two pairwise aggregations, damped Jacobi 2/3,
@@ -298,14 +375,24 @@ Proof.
   - apply solve_check_ok. vm_compute. reflexivity.
 Qed.
 
-Example C02_example_A3_hypotheses : hier_sym exLvls'.
+Example C02_example_A3_hypotheses : hier_sym exLvls' /\ hier_symk exLvls' /\ nosolve_top exLvls'.
 Proof.
-  apply (std_levels_sym QcS_ring QcS_eqb exJac 1 false 10 None exTs exM).
-  - exact I.
+  destruct (std_levels_sym QcS_ring QcS_eqb exJac 1 false 10 None exTs exM I) as [H1 H2].
   - vm_compute. reflexivity.
   - apply (sym_matb_ok QcS_eqb). vm_compute. reflexivity.
   - apply (ts_symb_ok QcS_eqb). vm_compute. reflexivity.
   - intros A HA. exfalso. apply (build_no_solve _ _ _ _ _ _ _ HA).
+  - split; [exact H1|]. split; [exact H2|exact I].
+Qed.
+
+Example C02_example_A3_gs_hypotheses : hier_sym exLvlsGS /\ hier_symk exLvlsGS.
+Proof.
+  apply (std_levels_sym_gs QcS_field 1 false 10 None exTs exM).
+  - vm_compute. reflexivity.
+  - apply (sym_matb_ok QcS_eqb). vm_compute. reflexivity.
+  - apply (ts_symb_ok QcS_eqb). vm_compute. reflexivity.
+  - intros A HA. exfalso. apply (build_no_solve _ _ _ _ _ _ _ HA).
+  - apply (gs_levels_check QcS_eqb). vm_compute. reflexivity.
 Qed.
 
 (* symmetry needs the symmetric schedule: with npre = 1, npost = 0 (and with npre = 2, npost = 1)
@@ -314,6 +401,9 @@ Example C02_example_asymmetric_when_npre_ne_npost :
   let z := [exq 0; exq 0; exq 0; exq 0] in
   let B := fun npre npost f => fst (apply npre npost 1 1 exLvls exScr0 f z) in
   seqb (dot (B 1 1 exF) exG) (dot exF (B 1 1 exG)) = true /\
+  seqb (dot (B 2 2 exF) exG) (dot exF (B 2 2 exG)) = true /\
+  seqb (dot (fst (apply 2 2 2 2 exLvlsGS exScr0 exF z)) exG)
+       (dot exF (fst (apply 2 2 2 2 exLvlsGS exScr0 exG z))) = true /\
   seqb (dot (B 1 0 exF) exG) (dot exF (B 1 0 exG)) = false /\
   seqb (dot (B 2 1 exF) exG) (dot exF (B 2 1 exG)) = false.
 Proof. vm_compute. auto. Qed.
